@@ -16,6 +16,15 @@ impl<T> Mutex<T> {
     pub fn lock(&self) -> MutexGuard<'_, T> {
         self.0.lock().unwrap()
     }
+    pub fn try_lock(&self) -> Option<MutexGuard<'_, T>> {
+        self.0.try_lock().ok()
+    }
+    pub fn get_mut(&mut self) -> &mut T {
+        self.0.get_mut().unwrap()
+    }
+    pub fn into_inner(self) -> T {
+        self.0.into_inner().unwrap()
+    }
 }
 
 impl<T: Default> Default for Mutex<T> {
@@ -43,6 +52,12 @@ impl<T> RwLock<T> {
     }
     pub fn try_read(&self) -> Option<RwLockReadGuard<'_, T>> {
         self.0.try_read().ok()
+    }
+    pub fn get_mut(&mut self) -> &mut T {
+        self.0.get_mut().unwrap()
+    }
+    pub fn into_inner(self) -> T {
+        self.0.into_inner().unwrap()
     }
 }
 
